@@ -54,6 +54,89 @@ func runVec(v *Vec) (res string) {
 				cpu = n
 			}
 		}
+	case "short":
+		// C12: the bundled SHORT memories and port spaces (DumbMemory / DumbIO shorter than their address range, MapMemory):
+		// Step must return normally whatever is addressed.  Result: only whether it panicked, and where it ended.
+		lens := []int{0, 1, 2, 3, 16, 255, 256, 257, 4096, 32768, 65535, 65536}
+		ml := lens[int(v.MemSeed)%len(lens)]
+		pl := []int{0, 1, 2, 128, 255, 256}[int(v.DevSeed)%6]
+		var mem z80.Memory
+		switch v.MemSeed % 3 {
+		case 0:
+			mm := z80.MapMemory{}
+			for a, b := range w.mem {
+				mm[a] = b
+			}
+			mem = mm
+		default:
+			dm := make(z80.DumbMemory, ml)
+			for i := range dm {
+				dm[i] = w.peek(uint16(i))
+			}
+			if ml > 0 && v.MemSeed%5 == 0 {
+				// stack and pointers right at the end of the slice
+				cpu.SP = uint16(ml)
+				cpu.HL.SetU16(uint16(ml))
+			}
+			mem = dm
+		}
+		cpu.Memory = mem
+		if v.HasIO {
+			cpu.IO = make(z80.DumbIO, pl)
+		}
+		for k := 0; k < v.N; k++ {
+			for _, in := range v.Inj {
+				if in.At == k {
+					cpu.Interrupt = &z80.Interrupt{Type: z80.InterruptType(in.Intr.Type), Data: append([]uint8{}, in.Intr.Data...)}
+				}
+			}
+			cpu.Step()
+		}
+		return fmt.Sprintf("%s ok short mem=%d io=%d PC %04x", v.ID, ml, pl, cpu.PC)
+	case "runirq", "stepirq":
+		// a device that raises an interrupt from inside its callback at the k-th port access; the same schedule is
+		// driven once by CPU.Run and once by CPU.Step with the stop rule applied externally (C08: real vs real)
+		nport := 0
+		w.onAccess = func(w *World, e Ev) {
+			if e.K == 'i' || e.K == 'o' {
+				nport++
+				for _, in := range v.Inj {
+					if in.At == nport {
+						cpu.Interrupt = &z80.Interrupt{Type: z80.InterruptType(in.Intr.Type), Data: append([]uint8{}, in.Intr.Data...)}
+					}
+				}
+			}
+		}
+		code := "limit"
+		if v.Kind == "runirq" {
+			ctx, cancel := context.WithTimeout(context.Background(), 5*time.Second)
+			err := cpu.Run(ctx)
+			cancel()
+			switch {
+			case err == nil:
+				code = "nil"
+			case err == z80.ErrBreakPoint:
+				code = "bp"
+			default:
+				code = strings.ReplaceAll(err.Error(), " ", "_")
+			}
+		} else {
+			cpu.HALT = false
+			for k := 0; k < 200000; k++ {
+				cpu.Step()
+				if cpu.BreakPoints != nil {
+					if _, ok := cpu.BreakPoints[cpu.PC]; ok {
+						code = "bp"
+						break
+					}
+				}
+				if cpu.HALT {
+					code = "nil"
+					break
+				}
+			}
+		}
+		return resultStr(v.ID, cpu, w) + " RUN " + code
 	case "run":
 		// N consecutive calls of Run, each with a watchdog; the result is the error class of every call and the final state
 		codes := ""
